@@ -36,7 +36,7 @@ from radical.pilot.agent.launch_method.base import LaunchMethod
 
 BASE_VAR   = 'C10_BASE'           # exported by the launcher environment
 BASE_VALUE = 'base value'
-RUN_TIMEOUT = 30.0                # s; a script that does not end is a verdict
+RUN_TIMEOUT = 20.0                # s; a script that does not end is a verdict
 
 
 # ------------------------------------------------------------------------------
